@@ -103,12 +103,30 @@ type spyTree struct {
 	silent int // convergences that happened inside Insert (indication discarded)
 	loud   int // convergences reported through InsertWithConvergenceIndication
 	miss   int // lookups that did not find the exact URL (no match, or only a wildcard)
+	// silentUnseen counts silent convergences on a URL of the current batch that the convergence pre-pass of
+	// that batch (ConvergeAggregation -> NormalizeTree, which inserts every URL of the batch with the
+	// indication) never inserted. The listed finding C15-F1 cannot produce that: there the pre-pass has seen
+	// every URL of the batch and the silent convergence is a second-order one.
+	silentUnseen int
+	batch        map[string]bool
+	loudSeen     map[string]bool
+}
+
+// begin tells the spy which URLs the batch about to be processed holds.
+func (s *spyTree) begin(urls []string) {
+	s.batch, s.loudSeen = map[string]bool{}, map[string]bool{}
+	for _, u := range urls {
+		s.batch[u] = true
+	}
 }
 
 func (s *spyTree) Insert(url string, v *common.EmptyStruct) error {
 	conv, err := s.inner.InsertWithConvergenceIndication(url, v) // = URLTree.Insert, keeping the flag
 	if conv {
 		s.silent++
+		if s.batch[url] && !s.loudSeen[url] {
+			s.silentUnseen++
+		}
 	}
 	return err
 }
@@ -118,6 +136,9 @@ func (s *spyTree) InsertDeclaredURL(url string, v *common.EmptyStruct) error {
 }
 
 func (s *spyTree) InsertWithConvergenceIndication(url string, v *common.EmptyStruct) (bool, error) {
+	if s.loudSeen != nil {
+		s.loudSeen[url] = true
+	}
 	conv, err := s.inner.InsertWithConvergenceIndication(url, v)
 	if conv {
 		s.loud++
@@ -142,6 +163,7 @@ type runInfo struct {
 	restarts  int // restarts performed while the state was non-empty
 	resets    int // restarts performed at all (each one rebuilds the URL tree from the known endpoints)
 	silent    int // convergences of the tree inside NormalizeURL (not reported to ConvergeAggregation)
+	unseen    int // ... of which on a URL of the batch that the batch's convergence pre-pass never inserted
 	loud      int // convergences reported to ConvergeAggregation
 	miss      int // NormalizeURL lookups that missed the URL just inserted
 	rejectErr error
@@ -200,6 +222,11 @@ func runPure(c kase, cuts []int) (discovery.Agg, runInfo, error) {
 		for k := range agg.Endpoints {
 			prev = append(prev, k)
 		}
+		us := make([]string, 0, len(logs))
+		for _, l := range logs {
+			us = append(us, l.URL)
+		}
+		tree.begin(us)
 		next, err := discovery.GetUpdatedAggregations(agg, logs, tree)
 		if err != nil {
 			// Run logs the error and returns it without updating the state
@@ -216,7 +243,7 @@ func runPure(c kase, cuts []int) (discovery.Agg, runInfo, error) {
 			}
 		}
 	}
-	info.silent, info.loud, info.miss = tree.silent, tree.loud, tree.miss
+	info.silent, info.loud, info.miss, info.unseen = tree.silent, tree.loud, tree.miss, tree.silentUnseen
 	return agg, info, nil
 }
 
@@ -267,7 +294,7 @@ func runStateful(c kase, cuts []int, restart []bool, dir string, check func(a *d
 			if err := st.InitializeState(); err != nil {
 				return nil, info, fmt.Errorf("InitializeState after restart: %w", err)
 			}
-			info.silent, info.loud, info.miss = info.silent+tree.silent, info.loud+tree.loud, info.miss+tree.miss
+			info.silent, info.loud, info.miss, info.unseen = info.silent+tree.silent, info.loud+tree.loud, info.miss+tree.miss, info.unseen+tree.silentUnseen
 			if tree, err = buildTree(c); err != nil {
 				return nil, info, err
 			}
@@ -276,6 +303,11 @@ func runStateful(c kase, cuts []int, restart []bool, dir string, check func(a *d
 		for i := b[0]; i < b[1]; i++ {
 			logs = append(logs, c.Recs[i].accessLog(i))
 		}
+		us := make([]string, 0, len(logs))
+		for _, l := range logs {
+			us = append(us, l.URL)
+		}
+		tree.begin(us)
 		if err := discovery.Run(st, logs, tree); err != nil {
 			info.rejected = append(info.rejected, b)
 			info.rejectErr = fmt.Errorf("Run(batch %v): %w", b, err)
@@ -285,7 +317,7 @@ func runStateful(c kase, cuts []int, restart []bool, dir string, check func(a *d
 			info.batches++
 		}
 	}
-	info.silent, info.loud, info.miss = info.silent+tree.silent, info.loud+tree.loud, info.miss+tree.miss
+	info.silent, info.loud, info.miss, info.unseen = info.silent+tree.silent, info.loud+tree.loud, info.miss+tree.miss, info.unseen+tree.silentUnseen
 	final, err := readState(path)
 	if err != nil {
 		return nil, info, err
@@ -1129,7 +1161,9 @@ func classifyBatchDependence(c kase, cutsX, cutsY []int, x, y discovery.Agg, ix,
 	return "C15-F2"
 }
 
-func isSilentConvergence(ix, iy runInfo) bool { return ix.silent+iy.silent > 0 }
+func isSilentConvergence(ix, iy runInfo) bool {
+	return ix.silent+iy.silent > 0 && ix.unseen+iy.unseen == 0
+}
 
 // isLostTerminal (C15-F3): a URL that had just been inserted (or a stored key
 // whose re-insertion failed on a parameter-name mismatch) was not found by
